@@ -39,7 +39,8 @@ META = {
     "level_text": ("refinement by validation (P-spec): Coq proves the specification deterministic, that two implementations "
                    "refining it on an operation sequence produce equal observations (and that a forward simulation gives "
                    "refinement for all sequences), and laws of the specification (push-then-pull no-op, tags set are tags "
-                   "read, tip after commit, revno = left-hand length, refused calls change nothing). That the local and the "
+                   "read, tip after commit, revno = left-hand length, refused calls change nothing, the old-server fallbacks are "
+                   "the same machine). That the local and the "
                    "remote code paths refine the specification is CHECKED per generated sequence, not proved."),
     "level_note": ("Trusted: Coq kernel, vm_compute, the harness. The refinement of breezy to the specification is sampled "
                    "(bounded sequences over generated histories), in-process SmartTCPServer on 127.0.0.1; one client "
@@ -53,6 +54,9 @@ META = {
                     "config values and tag names come from a pool that round-trips on a local branch (C49/C24 cover the codecs)",
                     "operations that need VFS (RemoteBranch.pull into the remote branch, commit builder on a remote repository) "
                     "fail cleanly under BRZ_NO_SMART_VFS: modelled as mode-dependent refusals, excluded from the equality claim",
+                    "two known discrepancies between the paths are part of the specification (mode-dependent): null: dropped by the "
+                    "remote get_parent_map, exception class of generate_revision_history on an absent revision; the third "
+                    "(get_revision KeyError on rich-root knit/pack repositories) was repaired in /repo 9cb1028 and is no longer excused",
                     "one client at a time (the locker is a second branch object in the same process)",
                     "old-server mode = the current server with 18 verbs removed from its registry (the insert_stream verbs stay)"],
     "rule": "one case = one op sequence x 3 modes; non-trivial = at least 3 state-changing ops succeeded; distinct = distinct (input, observation)",
@@ -61,8 +65,9 @@ SHARD = 4
 
 MODES = ("local", "vfs", "novfs", "oldsrv")
 FORMATS = ("2a", "1.9", "1.9-rich-root")
-# inventory serializer format numbers whose number is NOT a revision serializer format
-# (finding C32-iter-revisions-serializer): rich-root knit/pack formats
+# rich-root knit/pack formats: their inventory serializer number (6) is not a revision serializer number.
+# get_revision through bzr:// raised KeyError there (C32-iter-revisions-serializer, repaired in /repo 9cb1028);
+# the format stays in the rotation as a regression input.
 RICHROOT_OLD = ("1.9-rich-root",)
 
 TAGS = ["v1", "rel ease", "café", "é", "ｔａｇ", "x ", "a/b", "t\tab"]
@@ -569,9 +574,9 @@ def _coq_op(op):
 
 def model_term(inp):
     init = inp.get("init")
-    return "run_case %s %s %s %s [%s]" % (
+    return "run_case %s %s %s [%s]" % (
         daglib.coq_dag(inp["g"]), "None" if init is None else f"(Some {init})",
-        coq_bool(inp["fmt"] not in RICHROOT_OLD), coq_bool(bool(inp.get("oldsrv"))),
+        coq_bool(bool(inp.get("oldsrv"))),
         "; ".join(_coq_op(o) for o in inp["ops"]))
 
 
@@ -583,7 +588,7 @@ def impl_obs(inp, obs):
 
 # ---- the property itself, on the implementation's observation -------------------------------
 
-FINDINGS = ("C32-parent-map-null", "C32-iter-revisions-serializer", "C32-genhist-absent-class")
+FINDINGS = ("C32-parent-map-null", "C32-genhist-absent-class")
 VFS_ONLY = {"pull": "AssertionError", "commit": "UnknownErrorFromSmartServer"}
 
 
@@ -617,9 +622,6 @@ def _discrepancies(inp, obs):
                         and not isinstance(a[0], Err) and not isinstance(b[0], Err) \
                         and [e for e in a[0] if e[0] != -1] == b[0]:
                     kind = "C32-parent-map-null"
-                elif op[0] == "get_rev" and inp["fmt"] in RICHROOT_OLD and isinstance(b[0], Err) and str(b[0]) == "KeyError" \
-                        and mode != "oldsrv":
-                    kind = "C32-iter-revisions-serializer"
                 elif op[0] == "genhist" and str(a[0]) == "GhostRevisionsHaveNoRevno" and str(b[0]) == "NoSuchRevision" \
                         and isinstance(a[0], Err) and isinstance(b[0], Err):
                     kind = "C32-genhist-absent-class"
@@ -735,7 +737,7 @@ def _gen_ops(rng, g, nops, hpss_only=False, richroot=False, init=None):
             r = rng.random()
             if r < 0.12:
                 keys = [None]
-            elif r < 0.22 and not richroot and not null_pm_used:
+            elif r < 0.22 and not null_pm_used:
                 keys.insert(rng.randrange(len(keys) + 1), None)       # finding C32-parent-map-null
                 null_pm_used = True
             ops.append(["parent_map", keys])
@@ -763,9 +765,11 @@ def _case(rng, g, fmt, nops, **kw):
 def corpus():
     g = FIXED[0]
     return [
-        # finding witnesses
+        # finding witness (C32-parent-map-null, still known)
         {"fmt": "2a", "g": g, "init": 4, "big": None, "ops": [["parent_map", [None, 4]], ["parent_map", [None]]]},
-        {"fmt": "1.9-rich-root", "g": g, "init": 4, "big": None, "ops": [["get_rev", 2], ["get_rev", 6], ["lri"]]},
+        # regression input: witness of C32-iter-revisions-serializer (repaired in /repo 9cb1028), must PASS now
+        {"fmt": "1.9-rich-root", "g": g, "init": 4, "big": None, "oldsrv": True,
+         "ops": [["get_rev", 2], ["get_rev", 6], ["lri"], ["get_rev", 4], ["revtree", 4]]},
         {"fmt": "2a", "g": g, "init": None, "big": None, "ops": [["genhist", 6], ["push", 2, 0], ["genhist", 47], ["genhist", 6], ["fetch", 4], ["genhist", 4], ["lri"], ["revno", 1]]},
         {"fmt": "1.9", "g": g, "init": 2, "big": None, "ops": [
             ["lock"], ["fetch", 4], ["fetch", 1], ["pull", 4, 0], ["commit"], ["del_tag", 3], ["genhist", 1], ["genhist", 4],
